@@ -277,9 +277,10 @@ type world struct {
 	ibbh *ibb.Handler
 	mucc *muc.Client
 
-	stMu      sync.Mutex
-	histIDs   []string
-	histReady bool
+	stMu        sync.Mutex
+	histIDs     []string
+	histReady   bool
+	ibbNoAccept bool
 
 	done       chan struct{}
 	servePanic string
@@ -290,7 +291,14 @@ type world struct {
 func (w *world) envFor(comp, typ string) envT {
 	w.stMu.Lock()
 	defer w.stMu.Unlock()
-	return envT{Tracked: append([]string(nil), w.histIDs...), Ready: w.histReady, Type: typ, OK: true}
+	ready := true
+	switch comp {
+	case "HHistory":
+		ready = w.histReady || len(w.histIDs) == 0
+	case "HIbbIQ":
+		ready = !w.ibbNoAccept
+	}
+	return envT{Tracked: append([]string(nil), w.histIDs...), Ready: ready, Type: typ, OK: true}
 }
 
 func drain(r xml.TokenReader) {
@@ -384,7 +392,7 @@ func newWorld(tap bool) (*world, error) {
 	if regPanic != "" {
 		return nil, fmt.Errorf("registration panicked: %s", regPanic)
 	}
-	s, err := hx.NewReadySession(w.pipe.Sess, contentNS, 0, localJID, remoteJID)
+	s, err := hx.NewReadySession(w.pipe.Sess, contentNS, 0, remoteJID, localJID) // (location, origin): LocalAddr() is localJID
 	if err != nil {
 		return nil, err
 	}
